@@ -146,6 +146,7 @@ type Engine struct {
 	facts          map[*smt.Term]bool
 	intTerms       []*smt.Term             // ideal mode: real-sorted terms known to be integer-valued
 	truncOf        map[*smt.Term]*smt.Term // ideal mode: truncation is a function (same argument, same result)
+	ceilOf         map[*smt.Term]*smt.Term // ideal mode: likewise for Dec.Ceil
 	knownTries     map[string]int
 	symStrings     map[string]*smt.Term // printed form of symbolic integers -> term (Int.String / NewIntFromString round trip)
 	autoHints      []*smt.Term          // per path: rate-like inputs fixed to simple values (concrete-witness search only)
@@ -225,6 +226,7 @@ func (e *Engine) beginPath() {
 	e.facts = map[*smt.Term]bool{}
 	e.intTerms = nil
 	e.truncOf = map[*smt.Term]*smt.Term{}
+	e.ceilOf = map[*smt.Term]*smt.Term{}
 	e.intVars = nil
 	e.autoHints = nil
 	e.autoNames = map[string]bool{}
